@@ -80,6 +80,7 @@ fn run(r: &mut Run) -> Result<(), MachineryError> {
     text_space(r, "C05/fits(single paragraph)", &a1, t.pick(4, 6), &gamma(false), M_C05, WidthMode::Bytes, 0)?;
     text_space(r, "C05/fits(paragraphs)", &a2, t.pick(4, 6), &gamma(true), M_C05, WidthMode::Bytes, 3)?;
     escape_scan_space(r, "C05/escape-grammar-scan", M_C05, algs_default())?;
+    char_context_space(r, "C05/all-characters-in-context", M_C05, algs_default())?;
     word_seq_space(r, "C05/word-sequences", M_C05, algs_default())?;
     differential(r, "C05/differential(paragraphs)", &a2, t.pick(3, 6))?;
     differential(r, "C05/differential", &a1, t.pick(4, 5))?;
